@@ -7,6 +7,8 @@ pub mod keep_alive;
 pub mod logging;
 pub mod prelude;
 pub mod traits;
+#[cfg(selium_verif)]
+pub mod verif;
 
 pub(crate) mod connection;
 pub(crate) mod crypto;
